@@ -508,8 +508,10 @@ def random_cases(rng, tier):
         (8, (1, 1), 2, 40, [("spec", 16, 8), ("order", 2, 0), ("resamp", 6, 0)]),
         (22050, (1, 1), 1, 600, [("spec", 4 * 64, 4 * 32), ("resamp", 1000, 0)]),
     ]
+    # ONE chain with an inexact intermediate length is always run: the open finding TimeWithinStep/chain/inexact-intermediate-length
+    chains.append((16000, (1, 1), 1, 101, [("resamp", 8000, 0), ("resamp", 48000, 0)]))
     if CHAIN_INEXACT:
-        chains.append((16000, (1, 1), 1, 101, [("resamp", 8000, 0), ("resamp", 48000, 0)]))
+        chains.append((8, (1, 1), 1, 13, [("resamp", 4, 0), ("resamp", 12, 0)]))
     for _ in range(60 if tier == "quick" else 600):
         fr, te = rng.choice([(8, (1, 1)), (16, (1, 1)), (16, (1, 2)), (16000, (1, 1)), (22050, (2, 1)), (22050, (1, 1)), (24000, (2, 1)),
                              (8000, (1, 1)), (10, (1, 1)), (4410, (10, 1))])
@@ -643,9 +645,27 @@ def nontrivial(o):
     return bool(r["axes"]) and r["axes"][0]["n"] >= 2
 
 
+def _chain_inexact(c):
+    """a resample chain whose FIRST resampled length N*t1/sr is not a whole number (its advertised and its realised step differ)
+    and that is resampled again"""
+    try:
+        rate = c["fr"] * c["te"][0] // c["te"][1]
+        n = c["N"]
+        res = [op for op in c.get("ops", []) if op[0] == "resamp"]
+        for k, op in enumerate(res[:-1]):
+            if (n * op[1]) % rate != 0:
+                return True
+            n, rate = n * op[1] // rate, op[1]
+    except Exception:
+        pass
+    return False
+
+
 def finding_key(o, clause):
     c = o["in"]
     k = f"{clause}/{c['kind']}"
+    if clause in ("TimeWithinStep", "FirstResult/TimeWithinStep") and c["kind"] == "chain" and _chain_inexact(c):
+        return "TimeWithinStep/chain/inexact-intermediate-length"
     if clause == "Produced" and c["kind"] == "clip":
         k += "/" + str(o["out"].get("raised"))
     return k
